@@ -143,6 +143,9 @@ func (x *executor) runC(u *universe, cs ccase) {
 		if r == relSame || r == relPartial {
 			rs = "overlap"
 		}
+		if cs.method == "CDense.Copy" && rs == "overlap" {
+			rs += copyGeom(cs.recv, cs.op)
+		}
 		return cs.method + "|a=" + ckName[cs.k] + ":" + rs + "|other=-|" + clause
 	}
 	copyLike := cs.method == "CDense.Copy"
